@@ -15,6 +15,7 @@ Next == (\E i \in 1..Len(shapes) : (\E d \in 1..Len(shapes[i]) : n = 1 /\ GrowDi
         \/ (n = 1 /\ AddParam) \/ MoreRanks
 Spec == Init /\ [][Next]_vars
 InvExactlyOnce == ExactlyOnceAcrossShards(shapes, n)
+InvExactlyOnceAligned == ExactlyOnceAcrossShardsA(shapes, n, 4) /\ ExactlyOnceAcrossShardsA(shapes, n, 8)
 InvDim0ExactlyOnce == Dim0ExactlyOnce(shapes, n)
 InvShardsDisjoint == \A i \in 1..Len(shapes) : \A k \in 1..(n - 1) :
                         LET a == FlatShards(shapes, n)[k][i]  b == FlatShards(shapes, n)[k + 1][i]
